@@ -87,12 +87,14 @@ def inheritance_universe():
 SMALL_LIMIT = 160
 
 
-def all_kinds_universe():
+def all_kinds_universe(other_encodings=True):
     """one member (and one attribute) of every primitive kind: the text of each is swept with every hostile literal"""
     ns = 'urn:vf:c10k'
     fields = [['k%d' % i, {'prim': k, 'facets': {}}] for i, k in enumerate(sorted(gen.PRIMS))]
-    # binary members in the two other encodings (the reference request carries base64 text there: one more malformed input)
-    fields += [['kx', {'prim': 'ByteArray', 'facets': {'encoding': 'hex'}}], ['ku', {'prim': 'ByteArray', 'facets': {'encoding': 'urlsafe_base64'}}]]
+    if other_encodings:
+        # binary members in the two other encodings (the reference request carries base64 text there: one more malformed input).
+        # Not for the XML families: the reference writer follows the published schema, which says xs:hexBinary for the first
+        fields += [['kx', {'prim': 'ByteArray', 'facets': {'encoding': 'hex'}}], ['ku', {'prim': 'ByteArray', 'facets': {'encoding': 'urlsafe_base64'}}]]
     attrs = [['a%d' % i, {'attr': {'prim': k, 'facets': {}}}] for i, k in enumerate(sorted(gen.PRIMS)) if k != 'ByteArray']
     KK = {'name': 'KK', 'ns': ns, 'base': None, 'has_xmldata': False, 'fields': fields + attrs}
     KE = {'name': 'KE', 'ns': ns, 'base': None, 'has_xmldata': False, 'fields': fields}
@@ -166,6 +168,14 @@ def near_literals(text):
     return out
 
 
+def cut_literals(text):
+    """a valid literal cut short at every position (alone, and followed by a time zone), and with its head cut off: always tried, in every tier"""
+    out = []
+    for i in range(1, min(len(text), 48)):
+        out += [text[:i], text[:i] + 'Z', text[:i] + '+02:00', text[i:]]
+    return out
+
+
 def leaf_sweep(R, T, rng, data, struct, repro, tier, drivers):
     """every leaf of a valid request x (the hostile literals + the literals one edit away from the valid one)"""
     kind = T.kind
@@ -177,8 +187,9 @@ def leaf_sweep(R, T, rng, data, struct, repro, tier, drivers):
                 [('attr', i, k) for i, e in enumerate(els) for k in e.attrib if 'XMLSchema-instance' not in k]
         for how, i, k in sites:
             cur = els[i].text if how == 'text' else els[i].get(k)
-            for lit in HOSTILE + near_literals(cur):
-                if rng.random() > frac:
+            always = set(cut_literals(cur))
+            for lit in HOSTILE + near_literals(cur) + sorted(always):
+                if lit not in always and rng.random() > frac:
                     continue
                 d = copy.deepcopy(struct)
                 e = [x for x in d.iter() if isinstance(x.tag, str)][i]
@@ -195,8 +206,9 @@ def leaf_sweep(R, T, rng, data, struct, repro, tier, drivers):
     elif kind == 'httprpc':
         path, pairs = data
         for i, (k, v) in enumerate(pairs):
-            for lit in HOSTILE + near_literals(v):
-                if rng.random() > frac:
+            always = set(cut_literals(v))
+            for lit in HOSTILE + near_literals(v) + sorted(always):
+                if lit not in always and rng.random() > frac:
                     continue
                 ps = list(pairs)
                 ps[i] = (k, lit)
@@ -234,8 +246,9 @@ def leaf_sweep(R, T, rng, data, struct, repro, tier, drivers):
             if isinstance(cur, (dict, list)):
                 continue
             base = cur if isinstance(cur, str) else None
-            for lit in HOSTILE + (near_literals(base) if base else []):
-                if rng.random() > frac:
+            always = set(cut_literals(base)) if base else set()
+            for lit in HOSTILE + (near_literals(base) if base else []) + sorted(always):
+                if lit not in always and rng.random() > frac:
                     continue
                 try:
                     m = set_path(body, pth, lit)
@@ -845,7 +858,7 @@ def run(spec, R):
     for uid in list(range(nuni)) + [9100, 9200, 9300]:
         # (9100: the fixed three-level class tree with defaults, required attributes, bounded repeats; 9200: every primitive kind;
         #  9300: a class that contains itself)
-        ir = universe(spec['seed'], uid) if uid < 9000 else inheritance_universe() if uid == 9100 else all_kinds_universe() if uid == 9200 \
+        ir = universe(spec['seed'], uid) if uid < 9000 else inheritance_universe() if uid == 9100 else all_kinds_universe(kind not in ('xml', 'soap11', 'soap12')) if uid == 9200 \
             else chain_universe()
         try:
             T = Target(ir, kind, validator, rng, spec.get('out'))
@@ -880,6 +893,7 @@ def run(spec, R):
             # the valid request itself must be processed normally
             if uid == 9200:
                 leaf_sweep(R, T, rng, data, struct, repro, tier, drivers)
+                R.count('all_kinds_requests_swept')
             if kind == 'httprpc':
                 path, pairs = data
                 qs = refflat.query_string(pairs)
@@ -927,6 +941,8 @@ def run(spec, R):
                 for i, (cls, m) in enumerate(href_graphs(data)):
                     process(R, T, m, drivers[i % len(drivers)], cls, repro)
                     R.count('href_graphs_sent')
+    if not R.counters.get('all_kinds_requests_swept'):
+        R.inconclusive.append('all-kinds universe: no valid request could be built and swept for %s/%s' % (kind, validator))
     any_kinds(R, spec, rng)
     if len(R.samples) < 2:
         R.sample({'kind': kind, 'validator': validator, 'inputs': R.counters.get('inputs_processed'), 'fault_codes_seen': R.counters.get('fault_codes', [])[:12]})
